@@ -76,7 +76,7 @@ def main():
             dst = os.path.join(OUT, name)
             os.makedirs(dst, exist_ok=True)
             # regenerate the patch against HEAD so that it applies cleanly to /repo
-            _, diff = sh("git diff -- src", cwd=WT)
+            _, diff = sh("git diff HEAD -- src", cwd=WT)
             open(os.path.join(dst, "patch.diff"), "w").write(diff)
             shutil.copy(demo, os.path.join(dst, "demo.py"))
             try:
